@@ -48,6 +48,11 @@ func (ctx *continueCtx) clear() {
 	ctx.stack = ctx.stack[:0]
 }
 
+// inSwitch reports whether the innermost enclosing construct is a forwarding switch.
+func (ctx *continueCtx) inSwitch() bool {
+	return len(ctx.stack) > 0 && ctx.stack[len(ctx.stack)-1].kind == nestingSwitch
+}
+
 // enterLoop records entering a Loop statement.
 func (ctx *continueCtx) enterLoop() {
 	ctx.stack = append(ctx.stack, nesting{kind: nestingLoop})
